@@ -62,6 +62,28 @@ impl<'tcx> Cx<'tcx> {
           DefKind::Variant => {
             o.push(("adt", J::s(plain(self.tcx, self.tcx.parent(did)))));
           }
+          DefKind::Const { .. } | DefKind::AssocConst { .. } if !did.is_local() => {
+            // a constant of a dependency: its body is not in the facts, so carry the evaluated value (strings and integers)
+            if self.tcx.generics_of(did).count() == 0 && self.tcx.generics_of(did).parent.map_or(true, |p| self.tcx.generics_of(p).count() == 0) {
+              if let Ok(cv) = self.tcx.const_eval_poly(did) {
+                match cv {
+                  rustc_middle::mir::ConstValue::Slice { .. } => {
+                    if let Some(bytes) = cv.try_get_slice_bytes_for_diagnostics(self.tcx) {
+                      if let Ok(st) = std::str::from_utf8(bytes) {
+                        o.push(("cstr", J::s(st.to_string())));
+                      }
+                    }
+                  }
+                  rustc_middle::mir::ConstValue::Scalar(_) => {
+                    if let Some(si) = cv.try_to_scalar_int() {
+                      o.push(("cint", J::Int(si.to_bits_unchecked() as i128)));
+                    }
+                  }
+                  _ => {}
+                }
+              }
+            }
+          }
           _ => {}
         }
         J::Obj(o)
